@@ -337,12 +337,14 @@ _stored_cache = {}
 
 
 def attr_stored_anywhere(prog, name):
-    if not _stored_cache:
+    if '_stored_attrs' not in prog.__dict__:
+        out = set()
         for f in prog.funcs:
             for t, st, how in kernels.stores(f.node):
                 if isinstance(t, ast.Attribute):
-                    _stored_cache.setdefault(id(prog), set()).add(t.attr)
-    return name in _stored_cache.get(id(prog), set())
+                    out.add(t.attr)
+        prog.__dict__['_stored_attrs'] = out
+    return name in prog.__dict__['_stored_attrs']
 
 
 def swap_toggle(node, prog=None, f=None):
